@@ -219,6 +219,14 @@ def check(ctx, rep, cases):
         if c['inert_only'] and dumps != before:
             rep.violation('bytes that contain no write function code changed the datastore', case)
             continue
+        # no request creates or removes cells: whatever the bytes were, every table of every unit keeps its extent
+        def extent(d):
+            return [[u, [[cell[0] for cell in table] for table in tabs]] for u, tabs in d]
+        grown = next((i for i, now in enumerate(per_step) if extent(now) != extent(before)), None)
+        if grown is not None:
+            rep.violation('the extent of a datastore table changed (cells were created or removed by a request)', case, index=grown,
+                          chunk=c['schedule'][grown][1][:80] if isinstance(c['schedule'][grown][1], list) else c['schedule'][grown][1])
+            continue
         # a read that is answered with exception responses only, or not at all, prescribes no change (broadcast off:
         # every executed request is answered)
         if not c['broadcast']:
